@@ -27,6 +27,7 @@ def run(ctx, n, kinds, par=4, passes=1):
     mc = common.run_tlc(work, "SendReply", cfg="MC_SendReply.cfg", workers=10, timeout=1200)
     common.require_ok(mc, "MC SendReply (repaired variant, all invariants)")
     found = common.run_tlc(work, "SendReply", cfg="MC_SendReply_found.cfg", workers=4, timeout=600)
+    found2 = common.run_tlc(work, "SendReply", cfg="MC_SendReply_found2.cfg", workers=4, timeout=600)
     res = common.oracle_pass(ctx, allobs, "OracleTxn", nchunks=8, timeout=2400)
     lines = open(allobs).read().splitlines()
     if faults > max(2, len(lines) // 20):
@@ -80,7 +81,8 @@ def run(ctx, n, kinds, par=4, passes=1):
     ctx.cov.update(states=mc["distinct"] + res["states"] + tstates, transitions=mc["generated"] + res["transitions"], traces_validated_against_impl=len(lines),
                    model=dict(module="impl/SendReply.tla", cfg="MC_SendReply.cfg (2 senders, 2 epochs, 3 system-bytes values, 3 peer messages)",
                               distinct_states=mc["distinct"], generated=mc["generated"], depth=mc["depth"],
-                              invariants="NeverNilNil OwnReply InflightConserves SendMatchesWire NoStaleFrame UniqueSb RegistryClean NoDataWhenNotSelected",
+                              invariants="NeverNilNil OwnReply InflightConserves SendMatchesWire NoStaleFrame UniqueSb RegistryClean NoReplyLost NoDataWhenNotSelected",
+                              as_found_variant2="NoReplyLost %s with DropsLateReply=TRUE (finding F11, fixed)" % ("violated" if found2["invariant"] else "not violated"),
                               as_found_variant="NeverNilNil %s with CtlCompletesData=TRUE (finding F7, fixed)" % ("violated" if found["invariant"] else "not violated")),
                    evaluations=ncalls, distinct_nontrivial=len(distinct),
                    rule="one trace = one scenario (1..8 concurrent SendDataMessage(W) calls + handler-nested send, scripted peer behaviour "
